@@ -142,6 +142,7 @@ func WorkerMain(args []string) {
 	debug.SetMaxStack(128 << 20)
 	debug.SetMemoryLimit(3 << 30)
 	runtime.GOMAXPROCS(2)
+	prog.StageMarks = true
 	root := progChecks[args[0]]
 	tier := args[1]
 	in := bufio.NewScanner(os.Stdin)
@@ -203,6 +204,7 @@ const jobTimeout = 180 * time.Second
 
 // run one job; on worker death returns a Fatal result and ok=false (worker must be restarted).
 func (w *worker) run(j job) (Result, bool) {
+	w.stderr.Reset()
 	fmt.Fprintf(w.stdin, "%d %s %s\n", j.idx, j.family, vecArg(j.vec))
 	type rd struct {
 		line []byte
@@ -239,10 +241,20 @@ func vecArg(v []int) string {
 }
 
 func fatalLine(stderr string) string {
+	stage := ""
+	for _, l := range strings.Split(stderr, "\n") {
+		if strings.HasPrefix(l, "STAGE ") {
+			stage = "stage " + strings.TrimPrefix(l, "STAGE ") + ": "
+		}
+	}
+	return stage + fatalLine0(stderr)
+}
+
+func fatalLine0(stderr string) string {
 	for _, l := range strings.Split(stderr, "\n") {
 		if strings.HasPrefix(l, "fatal error:") || strings.HasPrefix(l, "runtime:") || strings.HasPrefix(l, "panic:") {
 			if strings.Contains(l, "goroutine stack exceeds") {
-				return "fatal error: stack overflow (" + strings.TrimSpace(l) + ")"
+				return "fatal error: stack overflow"
 			}
 			return strings.TrimSpace(l)
 		}
